@@ -75,7 +75,15 @@ impl<'a> Machine<'a> {
         match p {
             syn::Pat::Wild(_) => Ok(true),
             syn::Pat::Ident(i) => {
-                // an identifier that names a known enum variant/const is not a binding; we only see bindings here
+                // an upper-case identifier is a unit variant / constant (e.g. `None`), not a binding
+                let name = i.ident.to_string();
+                if name.chars().next().map_or(false, |c| c.is_uppercase()) && i.subpat.is_none() {
+                    return Ok(match v {
+                        V::Opt(None) => name == "None",
+                        V::Enum(e) => e == &name || e.ends_with(&format!("::{}", name)),
+                        _ => false,
+                    });
+                }
                 if let Some((_, sub)) = &i.subpat {
                     if !self.pat_matches(sub, v)? {
                         return Ok(false);
